@@ -85,7 +85,7 @@ REAL_KINDS = ("realsock", "openssl", "atls", "aio", "aiofault", "bufs", "aiohist
 #            (vlib/c04_async.py; "aiofault" = asyncio adapter send paths after RST / FIN / aclose: vlib/c04_aiofault.py;
 #             "bufs" = the send loops of the transport ABCs under every kind of buffer: vlib/c04_bufs.py;
 #             "aiohist" = multi-call HISTORIES on one asyncio adapter / endpoint / client object: vlib/c04_hist.py)
-_SUB = {"aiofault": "c04_aiofault", "bufs": "c04_bufs", "aiohist": "c04_hist"}
+_SUB = {"aiofault": "c04_aiofault", "bufs": "c04_bufs", "aiohist": "c04_hist", "clientlock": "c04_clientlock"}
 
 
 def _sub(case: dict):
@@ -231,6 +231,10 @@ def run_real(case: dict) -> list[str]:
 # ----------------------------------------------------------------------------------------------------------------
 
 def model_input(case: dict, real: list[str]):
+    if case.get("kind") == "clientlock":
+        from vlib import c04_clientlock
+
+        return c04_clientlock.model_input(case, real)     # the C11 `tmo` model (clientSend / udpClientSend)
     if case.get("kind") in REAL_KINDS:
         return None
     t = "inf" if case["timeout"] is None else str(case["timeout"])
@@ -484,7 +488,9 @@ def _bufkind_corpus() -> list[dict]:
 
 
 def corpus() -> list[dict]:
-    cs = []
+    from vlib import c04_clientlock
+
+    cs = list(c04_clientlock.corpus())
     # the same critical chunk lists on the real kernel / OpenSSL / asyncio (oracle only)
     for kind in ("realsock", "openssl", "atls", "aio"):
         for chunks in (["616263", "-"], ["-"], ["-", "6162", "-", "63", "-"], []):
@@ -619,6 +625,9 @@ def generate(rng, tier: str, boost: int):
     yield from c04_async.generate(rng, tier, boost)
     yield from c04_aiofault.generate(rng, tier, boost)
     yield from c04_hist.generate(rng, tier, boost)
+    from vlib import c04_clientlock
+
+    yield from c04_clientlock.generate(rng, tier, boost)
 
 
 def extra_coverage(stats) -> dict:
